@@ -320,6 +320,12 @@ pub fn run(rep: &mut Report, thorough: bool) {
         if pi >= max_plans {
             break;
         }
+        // the per-thread signal logs hold 2048 entries: a stress plan (up to ~300 signals, possibly
+        // all to one thread) only starts while every log has room for it
+        if matches!(plan.place, Where::Stress) && receivers.iter().any(|(s, _)| t.ctl.slot(*s, SLOT_SIGCOUNT) > 1500) {
+            rep.count("stress_plans_skipped(signal log room)", 1);
+            continue;
+        }
         let t_plan = std::time::Instant::now();
         t.settle();
         // all earlier signals must be accounted before the next plan starts (handshake for the
@@ -438,7 +444,7 @@ pub fn run(rep: &mut Report, thorough: bool) {
                     for _ in 0..spin * 50 {
                         std::hint::spin_loop();
                     }
-                    if placed2.load(Ordering::SeqCst) > 400 {
+                    if placed2.load(Ordering::SeqCst) > 300 {
                         break;
                     }
                 }
@@ -500,10 +506,13 @@ pub fn run(rep: &mut Report, thorough: bool) {
             rep.note("stopped early: 12 violations already witnessed");
             break;
         }
-        // logs are bounded (512 entries per thread): stop before they fill up
-        if receivers.iter().any(|(s, _)| t.ctl.slot(*s, SLOT_SIGCOUNT) > 480) {
-            rep.note("signal logs nearly full: remaining signal plans skipped for this target");
-            break;
+        // logs are bounded (2048 entries per thread): stop before they fill up
+        // every signal of the finished plan has been accounted (or reported): start the logs afresh
+        if receivers.iter().any(|(s, _)| t.ctl.slot(*s, SLOT_SIGCOUNT) > 1200) {
+            for (s, _) in receivers.iter() {
+                t.ctl.set_slot(*s, SLOT_SIGCOUNT, 0);
+            }
+            rep.count("signal_logs_reset", 1);
         }
     }
     rep.count("signal_send_errors", sender.send_errors.load(Ordering::SeqCst));
